@@ -2,10 +2,12 @@ package common
 
 // C18 — one-byte-length strings (WriteString / ReadString) round-trip; a string
 // that does not fit the one-byte length must be rejected by the encoder instead
-// of being written with a wrapped length.
+// of being written with a wrapped length. Every decode is repeated with the
+// same bytes delivered in pieces (wire.Delivery) and must give the same result.
 
 import (
 	"bytes"
+	"fmt"
 	"io"
 	"testing"
 
@@ -24,6 +26,19 @@ type c18StrCase struct {
 	Len  int    `json:"len"`
 	Seed uint64 `json:"seed"`
 	Text bool   `json:"text"` // printable ASCII instead of arbitrary bytes
+	// how the encoded bytes are handed to the reader the second time (zero value: in one piece only)
+	Dlv wire.Delivery `json:"dlv"`
+}
+
+// c18StrRedeliver: the bytes decoded again under the case's delivery pattern.
+func c18StrRedeliver(v *vlib.Verdict, in []byte, sentinel bool, d wire.Delivery, accepted bool, consumed int, whole string) {
+	wire.Redeliver(v, "C18", "common.ReadString", in, sentinel, d, accepted, consumed, func(st *wire.Stream) (string, string, error) {
+		got, _, err := ReadString(st)
+		if err == nil && got != whole {
+			return "value", fmt.Sprintf("%d bytes %.40q instead of %d bytes %.40q", len(got), got, len(whole), whole), nil
+		}
+		return "", "", err
+	})
 }
 
 func (c c18StrCase) value() string {
@@ -89,11 +104,13 @@ func c18StrRunA(c c18StrCase, v *vlib.Verdict) {
 	}
 	if st.Consumed != len(enc) {
 		v.Failf("C18:consumed-length:common.String", "encoding has %d bytes, ReadString consumed %d", len(enc), st.Consumed)
+		return
 	}
+	c18StrRedeliver(v, enc, true, c.Dlv, true, len(enc), got)
 }
 
 func c18StrGen(t *rapid.T) c18StrCase {
-	return c18StrCase{Len: wire.DrawLen(t, "len", 70000), Seed: rapid.Uint64().Draw(t, "seed"), Text: rapid.Bool().Draw(t, "text")}
+	return c18StrCase{Len: wire.DrawLen(t, "len", 70000), Seed: rapid.Uint64().Draw(t, "seed"), Text: rapid.Bool().Draw(t, "text"), Dlv: wire.DrawDelivery(t)}
 }
 
 func TestVerifC18StringEncDec(t *testing.T) {
@@ -114,17 +131,19 @@ func TestVerifC18StringSweep(t *testing.T) {
 	i := 0
 	for _, l := range lens {
 		for _, text := range []bool{false, true} {
-			i++
-			if !rec.Mine(i) {
-				continue
-			}
-			if !vlib.Each(t, rec, c18StrCase{Len: l, Seed: uint64(l)*2 + 1, Text: text}, c18StrRunA) {
-				return
+			for _, dlv := range wire.SweepDeliveries() {
+				i++
+				if !rec.Mine(i) {
+					continue
+				}
+				if !vlib.Each(t, rec, c18StrCase{Len: l, Seed: uint64(l)*2 + 1, Text: text, Dlv: dlv}, c18StrRunA) {
+					return
+				}
 			}
 		}
 	}
 	rec.SetExhaustive(true)
-	rec.Extra("enumerated", "string lengths 0..600 and 65534..65537, binary and text")
+	rec.Extra("enumerated", "string lengths 0..600 and 65534..65537, binary and text, each under the 8 delivery patterns of wire.SweepDeliveries")
 }
 
 // (B) decode -> encode -> decode on mutated encodings.
@@ -144,6 +163,9 @@ func c18StrRunB(c c18StrBCase, v *vlib.Verdict) {
 	var val string
 	var err error
 	if vlib.Guard(v, func() { val, _, err = ReadString(st) }) {
+		return
+	}
+	if c18StrRedeliver(v, in, false, c.Base.Dlv, err == nil, st.Consumed, val); !v.OK() {
 		return
 	}
 	if err != nil {
@@ -182,6 +204,6 @@ func c18StrRunB(c c18StrBCase, v *vlib.Verdict) {
 
 func TestVerifC18StringDecEncDec(t *testing.T) {
 	vlib.Drive(t, vlib.Spec[c18StrBCase]{ID: "C18", Quick: 4000, Run: c18StrRunB, Gen: func(t *rapid.T) c18StrBCase {
-		return c18StrBCase{Base: c18StrCase{Len: wire.DrawLen(t, "len", 300), Seed: rapid.Uint64().Draw(t, "seed")}, Muts: wire.GenMuts(t, 0, 3)}
+		return c18StrBCase{Base: c18StrCase{Len: wire.DrawLen(t, "len", 300), Seed: rapid.Uint64().Draw(t, "seed"), Dlv: wire.DrawDelivery(t)}, Muts: wire.GenMuts(t, 0, 3)}
 	}})
 }
